@@ -216,12 +216,14 @@ class HamiltonianChain(MarkovChain):
         # the leapfrog integrators, as it is for a user-supplied gradient function
         p = self.posterior(t)
         G = zeros(self.n_parameters)
-        # the step is relative to the size of each coordinate, but never smaller
-        # than the same fraction of the typical displacement in one leapfrog
-        # update, so coordinates which are (close to) zero are handled correctly
+        # the step is a small fraction of the typical displacement in one leapfrog
+        # update (the length-scale of the dynamics), so that it does not depend on
+        # how far from zero the parameters are; the size of the coordinate itself
+        # only sets a floor which keeps the step far above the spacing of the
+        # floating-point numbers around t
         inv_mass = self.mass.inv_mass
         inv_mass = diagonal(inv_mass) if ndim(inv_mass) == 2 else inv_mass
-        dt = 1e-5 * maximum(abs(t), self.ES.epsilon * sqrt(inv_mass))
+        dt = 1e-5 * maximum(1e-3 * abs(t), self.ES.epsilon * sqrt(inv_mass))
         if self.bounds is not None:
             # keep the step small compared with the bounds, and step towards the
             # inside of the bounds if a forward step would leave them
